@@ -64,6 +64,22 @@ def run(ctx):
         ok = ok and inner and all(g.precedes(bl[0], c) and g.precedes(c, bu[0]) for c in inner)
         ra.expect(ok, '%s:order' % name, g.where(), '%s must be rdlock -> bucket lock -> nolock operation -> bucket unlock -> rdunlock' % name, note='%s: nolock operation inside rd + bucket locks' % name)
 
+    # ---- (f) the locked entry points read the current table (pointer, size, buckets) only inside the rw_lock region:
+    #          a bucket index computed from a table observed before the read lock can belong to a table that was resized away
+    rf = ctx.rule('R32.f', 'locked entry points read rw_hash / nb_bits / buckets only under rw_lock', floor=15)
+    for name in (PFX + 'insert_impl', PFX + 'find', PFX + 'remove', PFX + 'lock_bucket', PFX + 'lock_bucket_handle'):
+        g = u.func(name); ctx.functions_analysed.add(name)
+        ls = lockset_analysis(g, BASE_LOCKS)
+        for l in g.loads():
+            if not (l.e.k == 'mem' and l.e.n in ('rw_hash', 'nb_bits', 'buckets')):
+                continue
+            must = ls.must_before(l)
+            if must is None:
+                continue
+            rf.expect(any(x.endswith('->rw_lock') for x in must), '%s:%s-unlocked' % (name, l.e.n), l.loc,
+                      '%s reads %s outside the rw_lock region: the table can be resized between this read and the lock, and the bucket index / head derived from it is stale' % (name, l.e.s),
+                      note='%s: %s read under rw_lock' % (name, l.e.n))
+
     # ---- (b)
     writers = {}
     for g in u.funcs().values():
